@@ -289,6 +289,16 @@ impl Default for InjectorPP {
     }
 }
 
+impl Drop for InjectorPP {
+    fn drop(&mut self) {
+        // Restore in reverse installation order: when a function was faked more than once, the
+        // bytes saved by the first installation (the real original) must be written back last.
+        while let Some(guard) = self.guards.pop() {
+            drop(guard);
+        }
+    }
+}
+
 /// A guard that prevents injectorpp affecting the test while alive.
 ///
 /// When this guard is held, no any injectorpp instance can be created.
